@@ -1,0 +1,22 @@
+//go:build verif
+
+package LunarUtil
+
+// Contracts for the verification machinery in /verif (comment-only file; compiled only with -tags verif).
+
+//@ # The six decoders of the packed almanac data (hex strings scanned with strings.Index) are outside the verified
+//@ # subset. They are pure functions of their two arguments; a trusted contract without postconditions makes a call a
+//@ # named value of exactly those arguments (assumption A8), which is what the C18 lemmas about their callers need:
+//@ # the accessor's list IS the decoder applied to the names of the defining pillars, nothing else is read.
+//@ func GetDayYi(monthGanZhi string, dayGanZhi string) *list.List [C18]
+//@   trusted
+//@ func GetDayJi(monthGanZhi string, dayGanZhi string) *list.List [C18]
+//@   trusted
+//@ func GetDayJiShen(lunarMonth int, dayGanZhi string) *list.List [C18]
+//@   trusted
+//@ func GetDayXiongSha(lunarMonth int, dayGanZhi string) *list.List [C18]
+//@   trusted
+//@ func GetTimeYi(dayGanZhi string, timeGanZhi string) *list.List [C18]
+//@   trusted
+//@ func GetTimeJi(dayGanZhi string, timeGanZhi string) *list.List [C18]
+//@   trusted
